@@ -660,6 +660,11 @@ pub fn run(rec: &mut Rec) {
             }
         }
     }
+    // keys trimmed WITH a list of enforced bounds (IPA ignores the list; sizes must still follow the supported degree)
+    for d in [4usize, 15, 16, 100] {
+        ipa.push(KeyCfg::uni(300, d, 1, Some(vec![(d / 2).max(1)])));
+        ipa.push(KeyCfg::uni(300, d, 1, Some(vec![1, d])));
+    }
     group_scheme::<SIpa>(rec, ipa);
     let mut pst = Vec::new();
     for nv in 2..=if t { 6 } else { 5 } {
